@@ -243,11 +243,14 @@ mutual
   def mergeKvs : Nat → List (String × Schema) → List (String × Schema) → List (String × Schema)
     | _, d, [] => d
     | 0, d, _ => d
-    | f + 1, d, (k, v) :: rest =>
-      let d' := match alookup k d with
-        | none => d ++ [(k, v)]
-        | some old => d.map (fun (p : String × Schema) => if p.1 = k then (k, mergeNode f old v) else p)
-      mergeKvs f d' rest
+    | f + 1, d, (k, v) :: rest => mergeKvs f (mergeEntry f d k v) rest
+  /-- one entry of `src` merged into the destination map -/
+  def mergeEntry : Nat → List (String × Schema) → String → Schema → List (String × Schema)
+    | 0, d, _, _ => d
+    | f + 1, d, k, v =>
+      match alookup k d with
+      | none => d ++ [(k, v)]
+      | some old => d.map (fun (p : String × Schema) => if p.1 = k then (k, mergeNode f old v) else p)
 end
 
 def ratZeroOverwrite (a b : Option Rat) : Bool :=
@@ -290,18 +293,33 @@ def mergeTypes (bs : List Schema) : Except GenErr Schema :=
 def sortedKeys {α : Type} (m : List (String × α)) : List String :=
   (m.map (·.1)).mergeSort (fun a b => decide (a ≤ b))
 
+def lowerChars (cs : List Char) : List Char := cs.map Char.toLower
+
+/-- `extractRefNames` on characters: (defName, fileName) -/
+def extractRefNamesL (cs : List Char) : Except GenErr (List Char × List Char) :=
+  match cs.idxOf? '#' with
+  | none => .ok ([], cs)
+  | some i =>
+    let fileName := cs.take i
+    let scope := cs.drop (i + 1)
+    let lower := lowerChars scope
+    if "/$defs/".toList.isPrefixOf lower then .ok (scope.drop 7, fileName)
+    else if "/definitions/".toList.isPrefixOf lower then .ok (scope.drop 13, fileName)
+    else .error (.badRef (String.ofList cs))
+
 /-- `extractRefNames`: (defName, fileName) -/
 def extractRefNames (ref : String) : Except GenErr (String × String) :=
-  let cs := ref.toList
-  match cs.idxOf? '#' with
-  | none => .ok ("", ref)
-  | some i =>
-    let fileName := String.ofList (cs.take i)
-    let scope := String.ofList (cs.drop (i + 1))
-    let lower := scope.toLower
-    if lower.startsWith "/$defs/" then .ok ((scope.drop 7).toString, fileName)
-    else if lower.startsWith "/definitions/" then .ok ((scope.drop 13).toString, fileName)
-    else .error (.badRef ref)
+  match extractRefNamesL ref.toList with
+  | .ok (d, f) => .ok (String.ofList d, String.ofList f)
+  | .error e => .error e
+
+/-- `CachedLoader.cacheKey` (fix R4) on paths as lists of segments: a relative file reference is keyed by the
+    referring file's directory joined with it; an absolute one, or one without referrer, by itself -/
+def cacheKeySegs (isAbs : Bool) (parentDir : Option (List String)) (rel : List String) : List String :=
+  match isAbs, parentDir with
+  | true, _ => rel
+  | false, none => rel
+  | false, some d => d ++ rel
 
 /-- `Caser.IdentifierFromFileName` on the base name -/
 def baseName (path : String) : String := (path.splitOn "/").getLast!
